@@ -82,6 +82,15 @@ func (h *Sources) SkipSave() {
 // keeps the command that has just been executed.
 func (h *Sources) SaveWithCommand(bind inputrc.Bind) {
 	h.last = bind
+
+	// An accepted line has just been written to the history sources: a history
+	// line being edited is no longer where it was counted from the newest one,
+	// and its state would be saved as a change to its neighbour.
+	if h.accepted {
+		h.Reset()
+		return
+	}
+
 	h.Save()
 }
 
